@@ -354,6 +354,8 @@ SUMMARIES = {
     R + r"ok$": s_result_ok, R + r"err$": s_result_err,
     P + r"ok_or$": s_ok_or,
     P + r"as_ref$": s_as_ref, R + r"as_ref$": s_as_ref,
+    # Option<String>::as_deref: a view of the payload (the string model does not distinguish String from &str)
+    P + r"as_deref$": s_as_ref,
     P + r"zip$": s_zip,
     R + r"map_err$": s_map_err,
     r"^(core::bool::|std::bool::)?(<impl bool>::|bool::)?then(_some)?$": s_bool_then,
